@@ -357,6 +357,11 @@ func (q *c15Seq) snapshot(names []string) (*c15World, error) {
 			sums[int(f.ID)] = f.checksum
 		}
 	}()
+	func() {
+		q.d.engineLock.RLock()
+		defer q.d.engineLock.RUnlock()
+		w.Engines = fmt.Sprintf("%p/%p", q.d.filteringEngine, q.d.filteringEngineAllow)
+	}()
 	known := map[string]bool{}
 	for _, l := range q.lists {
 		s := &c15Snap{}
@@ -708,6 +713,15 @@ func (q *c15Seq) step(si int) bool {
 	}
 
 	resyncEngines := false
+	anyFileChanged := false
+	for _, l := range q.lists {
+		bs, as := before.Lists[l.ID], after.Lists[l.ID]
+		anyFileChanged = anyFileChanged || bs.Exists != as.Exists || !bytes.Equal(bs.Bytes, as.Bytes)
+	}
+	if !anyFileChanged && before.Engines != after.Engines {
+		// Not a change of the rules in force, hence not asserted.
+		rep.Event("engines_rebuilt_though_no_list_file_changed")
+	}
 	for _, l := range q.lists {
 		b := st.Beh[l.Idx]
 		bs, as := before.Lists[l.ID], after.Lists[l.ID]
